@@ -780,8 +780,12 @@ __published:
   QmWide() {}
   const wchar_t *wname() const { return L"w"; }
   int wtake(const wchar_t *s) const { return s ? (int)s[0] : 0; }
+  int take_ws(std::wstring w) const { return (int)w.size(); }
+  int take_wr(const std::wstring &w) const { return (int)w.size(); }
+  int take_wp(const std::wstring *w) const { return w ? (int)w->size() : -1; }
+  std::wstring make_w() const { return std::wstring(L"wide"); }
 };
-""")
+""", pre="#include <string>\n")
 
 # ------------------------------------------------------- constructed hash collisions
 def hash_string(name, shift_offset):
@@ -936,6 +940,110 @@ def _string_atoms():
 
 
 _string_atoms()
+
+# ---- atoms that exist to instantiate the remaining ParameterRemap classes (C11) ----
+atom("handles", "remaps", r"""
+class ButtonHandle {
+__published:
+  ButtonHandle() : _i(0) {}
+  ButtonHandle(int i) : _i(i) {}
+  int get_index() const { return _i; }
+private:
+  int _i;
+};
+class RhUser {
+__published:
+  RhUser() {}
+  ButtonHandle get_button(int i) const { return ButtonHandle(i + 1); }
+  int take_button(ButtonHandle h) const { return h.get_index(); }
+  int take_cbutton(const ButtonHandle h) const { return h.get_index(); }
+};
+""")
+
+atom("refcount", "remaps", r"""
+class ReferenceCount {
+public:
+  ReferenceCount() : _rc(0) {}
+  virtual ~ReferenceCount() {}
+  void ref() const { ++_rc; }
+  bool unref() const { return --_rc != 0; }
+  int get_ref_count() const { return _rc; }
+private:
+  mutable int _rc;
+};
+template<class T> inline void unref_delete(T *ptr) { if (!ptr->unref()) { delete ptr; } }
+template<class T>
+class PointerTo {
+public:
+  PointerTo(T *ptr = 0) : _p(ptr) { if (_p) _p->ref(); }
+  PointerTo(const PointerTo<T> &copy) : _p(copy._p) { if (_p) _p->ref(); }
+  ~PointerTo() { if (_p) unref_delete(_p); }
+  T *p() const { return _p; }
+  T *operator -> () const { return _p; }
+  operator T * () const { return _p; }
+private:
+  T *_p;
+};
+template<class T>
+class ConstPointerTo {
+public:
+  ConstPointerTo(const T *ptr = 0) : _p(ptr) { if (_p) _p->ref(); }
+  ConstPointerTo(const ConstPointerTo<T> &copy) : _p(copy._p) { if (_p) _p->ref(); }
+  ~ConstPointerTo() { if (_p) unref_delete((T *)_p); }
+  const T *p() const { return _p; }
+  const T *operator -> () const { return _p; }
+  operator const T * () const { return _p; }
+private:
+  const T *_p;
+};
+class RrNode : public ReferenceCount {
+__published:
+  RrNode() : _value(5), _child(0) {}
+  int get_value() const { return _value; }
+  void set_value(int value, int scale = 1) { _value = value * scale; }
+  PointerTo<RrNode> get_child(int n) const { return _child; }
+  ConstPointerTo<RrNode> get_const_child() const { return (const RrNode *)_child; }
+  void add_child(PointerTo<RrNode> child) { _child = child.p(); if (_child) _child->ref(); }
+  int take_cref(const PointerTo<RrNode> &c) const { return c.p() != 0; }
+  int take_const(ConstPointerTo<RrNode> c) const { return c.p() != 0; }
+  RrNode *get_parent() const { return 0; }
+  static PointerTo<RrNode> make_root(int id) { PointerTo<RrNode> r = new RrNode; r->set_value(id); return r; }
+private:
+  int _value;
+  RrNode *_child;
+};
+""")
+
+atom("bytevector", "remaps", r"""
+template<class T>
+class pvector {
+public:
+  pvector() : _b(0), _n(0) {}
+  pvector(const T *b, const T *e) : _b(b), _n((int)(e - b)) {}
+  int size() const { return _n; }
+  bool empty() const { return _n == 0; }
+  const T *data() const { return _b; }
+  const T &operator [] (int i) const { return _b[i]; }
+private:
+  const T *_b;
+  int _n;
+};
+class RvBytes {
+__published:
+  RvBytes() {}
+  int take_v(pvector<unsigned char> v) const { return v.size(); }
+  int take_cv(const pvector<unsigned char> v) const { return v.size(); }
+  int take_rv(const pvector<unsigned char> &v) const { return v.size(); }
+};
+""", needs=("string",))
+
+atom("stringptrs", "remaps", r"""
+class RsStrings {
+__published:
+  RsStrings() {}
+  int take_sp(const std::string *s) const { return s ? (int)s->size() : -1; }
+};
+""", needs=("string",), pre="#include <string>\n")
 
 ATOM_BY_NAME = {a.name: a for a in ATOMS}
 GROUPS = {}
